@@ -5,7 +5,10 @@ from .. import vim_lang as V
 from ..common import C, run_coq_eval, server_map, txt, untxt
 
 IMPORTS = ["Base.Prelude", "Model.Undo", "Model.Obs"]
-EX_EDITS = [":s/o/0/<CR>", ":%s/a/A/g<CR>", ":d<CR>", ":2d<CR>", ":1,2d<CR>", ":s/\\w+/W/<CR>", ":%s/é/E/<CR>"]
+EX_EDITS = [":s/o/0/<CR>", ":%s/a/A/g<CR>", ":d<CR>", ":2d<CR>", ":1,2d<CR>", ":s/\\w+/W/<CR>", ":%s/é/E/<CR>",
+            # ex commands that may fail half-way: a substitute whose pattern does not compile, a range past the end, reading the
+            # output of a shell command that prints something and then fails - whatever they did to the text is one change, or none
+            ":s/(/x/<CR>", ":9,12d<CR>", ":r !printf 'X\\nY\\n'; exit 3<CR>", ":r !echo in<CR>", ":r !exit 2<CR>", ":2r !printf Z<CR>"]
 
 
 BLOCK_EDITS = ["<c-v>jcX<esc>", "<c-v>jIab<esc>", "<c-v>jlAé<esc>", "<c-v>jjcnew<esc>", "<c-v>jld", "<c-v>jI<esc>", "l<c-v>jjc<esc>", "<c-v>jr#", "<c-v>j$Aend<esc>"]
@@ -71,7 +74,13 @@ def run(chk, binary):
         start = rng.randint(0, max(0, len(text) - 1)) if rng.random() < 0.6 else 0
         reqs.append({"op": "keys", "text": text, "cursor": start, "keys": hist + tail})
         meta.append((text, hist, start))
-    ans = server_map(binary, reqs)
+    # (the histories here name their shell commands themselves - printf, echo, exit - so they get a real shell)
+    import os
+    os.environ["VERIF_SERVER_SHELL"] = "/bin/sh"
+    try:
+        ans = server_map(binary, reqs)
+    finally:
+        os.environ.pop("VERIF_SERVER_SHELL", None)
     cases = []
     cmeta = []
     dist = {"panic": 0, "with_redo": 0, "with_insert_session": 0, "multibyte": 0, "err_steps": 0}
@@ -133,6 +142,15 @@ def run(chk, binary):
             ops.append((3, None, [], 0))          # the end of the key string: set_normal_mode closes an open record
         if not ok:
             dist["err_steps"] += 1
+            # a command that failed half-way: whatever it did to the text must be on record - otherwise the next u takes
+            # back that and the change before it in one go
+            prev = a["init"] if isinstance(a.get("init"), dict) else None
+            for k, st in zip(hist + ["u"] * 14, steps):
+                if prev is not None and "buf" in prev and "buf" in st and any(not c.get("done") for c in st["cmds"]) and not any(c.get("undo_op") for c in st["cmds"]):
+                    if st["buf"] != prev["buf"] and len(st.get("undo") or []) <= len(prev.get("undo") or []) and not st.get("ims"):
+                        chk.violation("spec:a command that failed changed the text without an undo record", dict(case0, at_key=k, before=prev["buf"], after=st["buf"]))
+                        break
+                prev = st
             continue
         final = steps[-1]
         if final["buf"] != text:
